@@ -95,7 +95,43 @@ def run(ctx):
         paths = ex.explore()
         loops = [p for p in paths if p.end == "loop"]
         rets = [p for p in paths if p.end == "return"]
-        if len(loops) != 1 or len(rets) != 1:
+        folded = None
+        if len(loops) == 0 and len(rets) == 1:
+            # the same recurrence spelled as bytes.iter().fold(init, |c, &byte| ..): the closure body is the loop body,
+            # the fold's initial value the register's, and what is done to the fold result the finalisation
+            r0 = rets[0].env.local(0)
+            core0, k0 = xor_affine(r0)
+            if isinstance(core0, tuple) and core0[0] == "call" and core0[1].split("::")[-1].split("<")[0] == "fold" and len(core0[2]) == 3:
+                clo = core0[2][2]
+                cb = prog.body(clo[2]) if isinstance(clo, tuple) and clo[0] == "agg" and clo[1] == "closure" else None
+                if cb is not None:
+                    crets = [q for q in Explorer(cb).explore() if q.end == "return"]
+                    if len(crets) == 1:
+                        folded = (k0, core0[2][1], N(crets[0].env.local(0)), clo)
+        if folded is not None:
+            k0, init_e, upd, clo = folded
+            ctx.ob("JAMCRC", "final-xor", k0 == 0, f"checksum returns fold(..) ^ {k0:#x}; JAMCRC has no final inversion (net constant 0)", b.file, b.line, sample=True)
+            init = (init_e[1] & ALL1) if is_const(init_e) else None
+            ctx.ob("JAMCRC", "init", init == ALL1, f"register initial value = {init if init is None else hex(init)}; must be 0xFFFFFFFF", b.file, b.line)
+            # closure parameters: 1 = environment (captures self), 2 = accumulator c, 3 = &byte
+            C = ("v", 2)
+            ok = False
+            detail = show(upd)
+            if isinstance(upd, tuple) and upd[0] == "bin" and upd[1] == "BitXor":
+                parts = [upd[2], upd[3]]
+                shr = [x for x in parts if x == N(("bin", "Shr", C, K(8)))]
+                tab = [x for x in parts if isinstance(x, tuple) and x[0] == "idx" and any(isinstance(t, tuple) and t[0] == "fld" and t[2] == "table" for t in walk(x[1]))]
+                if shr and tab:
+                    ix = tab[0][2]
+                    if isinstance(ix, tuple) and ix[0] == "bin" and ix[1] == "BitAnd" and K(0xFF, "int") in (ix[2], ix[3]):
+                        inner = ix[2] if ix[3] == K(0xFF, "int") else ix[3]
+                        if isinstance(inner, tuple) and inner[0] == "bin" and inner[1] == "BitXor" and C in (inner[2], inner[3]):
+                            other = inner[2] if inner[3] == C else inner[3]
+                            ok = not is_const(other) and other != C and any(t == ("v", 3) for t in walk(other))
+            # the captured table is self.table of the checksum's own receiver
+            cap_ok = isinstance(clo[3], tuple) and any(any(t in (("p", 1), ("v", 1)) for t in walk(x)) for x in clo[3])
+            ctx.ob("JAMCRC", "update", ok and cap_ok, f"fold body: c' = {detail}; definition c' = T[(c ^ byte) & 0xFF] ^ (c >> 8)", b.file, b.line, sample=True)
+        elif len(loops) != 1 or len(rets) != 1:
             ctx.fail_closed("JAMCRC", f"checksum: expected one loop / one exit, got {len(loops)}/{len(rets)}")
         else:
             # the register is the havocked local that the return value is affine in
